@@ -67,13 +67,12 @@ def findObj (nodes : List CNode) (home : Cx) (src : String) (ptr : List String) 
 
 def build (fs : Files) (rootData : Option Json) (rootCx : Cx) (rootSrc : String) (rootJ : Json) : Built :=
   let (nodes0, cxs) := close fs rootData 24 (enumDoc rootCx rootSrc rootJ) [rootCx]
-  -- a resolver works on a local copy of a target that is itself a reference (not for path items)
-  let nodes := nodes0 ++ (nodes0.filter (fun n => n.ref.isSome && n.kind != .pathItem)).map (fun n => { n with copy := true })
+  -- a resolver works on a local copy of a target that is itself a reference
+  let nodes := nodes0 ++ (nodes0.filter (fun n => n.ref.isSome)).map (fun n => { n with copy := true })
   let texts := dedup (nodes.filterMap (·.ref))
   let table : List Node := nodes.map (fun m =>
       { kind := m.kind, ref := m.ref.bind (idxOf texts),
         kids := m.kids.filterMap (fun (p, k) => findObj nodes m.cx m.src p k false),
-        skipped := m.skipped.filterMap (fun (p, k) => findObj nodes m.cx m.src p k false),
         home := (idxOf cxs m.cx).getD 0,
         orig := if m.copy then findObj nodes m.cx m.src m.ptr m.kind false else none })
   let step (l : Loc) (t : Text) (k : Kind) : Option StepR :=
@@ -88,7 +87,7 @@ def build (fs : Files) (rootData : Option Json) (rootCx : Cx) (rootSrc : String)
           let dj := match c.doc with | some d => fetch fs d | none => rootData
           let src := match c.doc with | some d => storeKey d | none => ""
           match dj with
-          | some dj => ((docChildren dj).filter (·.walked)).filterMap (fun ch => findObj nodes c src ch.toks ch.kind false)
+          | some dj => (docChildren dj).filterMap (fun ch => findObj nodes c src ch.toks ch.kind false)
           | none => []
         else []
       | none => [],
@@ -97,16 +96,13 @@ def build (fs : Files) (rootData : Option Json) (rootCx : Cx) (rootSrc : String)
       | _, _ => none,
     target := fun l t k => match step l t k with
       | some (.node cont home src ptr _ _) => (idxOf cxs cont).bind (fun ci =>
-          match (if k == .pathItem then none else findObj nodes home src ptr k true) with
+          match findObj nodes home src ptr k true with
           | some ni => some (ci, ni)
           | none => (findObj nodes home src ptr k false).map (fun ni => (ci, ni)))
       | _ => none,
-    rewalk := fun _ t k => match texts[t]? with
-      | some tx => tx.contains '#' && k != .pathItem
+    rewalk := fun _ t _ => match texts[t]? with
+      | some tx => tx.contains '#'
       | none => false,
-    crashes := fun l t k => match step l t k with
-      | some .panicNil => true
-      | _ => false,
     emptyTarget := fun l t k => match step l t k with
       | some .empty => true
       | _ => false }
@@ -123,7 +119,7 @@ def reach (b : Built) (s : St) : Nat → List Obj → List Obj → List (String 
       | none => reach b s f rest (i :: seen) acc
       | some n =>
         match n.ref with
-        | none => reach b s f (rest ++ n.kids ++ n.skipped) (i :: seen) acc
+        | none => reach b s f (rest ++ n.kids) (i :: seen) acc
         | some _ =>
           let rid := ((b.nodes[i]?).map (·.rid)).getD "?"
           match s.get i with
@@ -158,11 +154,10 @@ def handle (j : Json) : Json :=
   let w := b.world
   let res := load w 400 0
   let topIds : List Obj := (docChildren rootJ).filterMap (fun ch => findObj b.nodes rootCx rootSrc ch.toks ch.kind false)
-  let (outcome, refs, nback, foreign, nnil) := match res with
-    | .ok s => ("ok", reach b s 4000 topIds [] [], s.nback, s.foreign, s.nnil)
-    | .err fg => ("err", [], 0, fg, 0)
-    | .panic fg => ("panic", [], 0, fg, 0)
-    | .outOfFuel => ("outOfFuel", [], 0, false, 0)
+  let (outcome, refs, nback, foreign, nnil, nskip, nempty) := match res with
+    | .ok s => ("ok", reach b s 4000 topIds [] [], s.nback, s.foreign, s.nnil, s.nskip, s.nempty)
+    | .err fg => ("err", [], 0, fg, 0, 0, 0)
+    | .outOfFuel => ("outOfFuel", [], 0, false, 0, 0, 0)
   -- specification
   let specRefs := specWalk fs rootData 4000
     ((docChildren rootJ).map (fun c => ((if isData then none else some (storeKey root)), c.kind, c.j, c.toks.getLast?.getD ""))) (if isData then [] else [storeKey root]) []
@@ -172,20 +167,12 @@ def handle (j : Json) : Json :=
   let stepOf (n : CNode) : StepR := stepGo fs rootData n.cx (n.ref.getD "") n.kind   -- evaluated at home
   let stepKey (r : StepR) : String := match r with
     | .node cx _ src ptr _ _ => s!"{repr cx}|{src}|{ptr}"
-    | .fail => "fail" | .panicNil => "nil" | .empty => "empty"
+    | .fail => "fail" | .empty => "empty"
   let textNotGlobal := refNodes.any (fun a => refNodes.any (fun c =>
     a.ref == c.ref && a.kind == c.kind && stepKey (stepOf a) != stepKey (stepOf c)))
-  let kindClash := refNodes.any (fun a => refNodes.any (fun c => a.ref == c.ref && a.kind != c.kind))
-  -- a reference that sits at, or anywhere below, a position no resolver visits
-  let skippedRoots : List (Cx × String × List String) :=
-    b.nodes.flatMap (fun n => n.skipped.map (fun (p, _) => (n.cx, n.src, p))) ++
-    (b.cxs.filter (fun c => c.doc == c.path)).flatMap (fun c =>
-      let dj := match c.doc with | some d => fetch fs d | none => rootData
-      let src := match c.doc with | some d => storeKey d | none => ""
-      match dj with
-      | some dj => ((docChildren dj).filter (fun ch => !ch.walked)).map (fun ch => (c, src, ch.toks))
-      | none => [])
-  let unwalked := refNodes.any (fun n => skippedRoots.any (fun (c, s, p) => c == n.cx && s == n.src && p.isPrefixOf n.ptr))
+  -- a04fe6c: a callback that meets a value of another kind returns; when the load then succeeds the
+  -- component of that callback may be left without value although its reference is of the wrong kind
+  let kindClash := outcome == "ok" && nskip > 0
   let targetIsRef (n : CNode) : Bool := match stepOf n with
     | .node _ home src ptr _ _ => b.nodes.any (fun m => m.cx == home && m.src == src && m.ptr == ptr && m.kind == n.kind && m.ref.isSome && !m.copy)
     | _ => false
@@ -194,10 +181,9 @@ def handle (j : Json) : Json :=
     t.endsWith "#" ||
     (match res with
      | .ok s => (match findObj b.nodes n.cx n.src n.ptr n.kind false with
-        | some i => (s.get i).isNone && targetIsRef n && n.kind != .pathItem
+        | some i => (s.get i).isNone && targetIsRef n
         | none => false)
      | _ => false))
-  let pathItemChain := refNodes.any (fun n => n.kind == .pathItem && targetIsRef n)
   let specStepKey (n : CNode) : String :=
     match stepSpec fs rootData (if n.src = "" then none else some n.src) (n.ref.getD "") with
     | some (file, toks, v) =>
@@ -209,24 +195,16 @@ def handle (j : Json) : Json :=
     | none => "fail"
   let goStepKey (n : CNode) : String := match stepOf n with
     | .node _ _ src ptr _ _ => s!"{src}|{ptr}"
-    | .fail => "fail" | .panicNil => "nil" | .empty => "empty"
+    | .fail => "fail" | .empty => "empty"
   let disagree := refNodes.filter (fun n => goStepKey n != specStepKey n)
-  let fallback := disagree.any (fun n => match stepOf n with
-    | .node cx _ src _ false _ => (cx.doc.map storeKey).getD "" != src && !((n.ref.getD "").startsWith "#")
-    | _ => false)
-  let nilField := refNodes.any (fun n => match stepOf n with | .panicNil => true | _ => false)
   let internalInElem := disagree.any (fun n => (n.ref.getD "").startsWith "#" && n.cx.doc != n.cx.path)
   let otherDisagree := disagree.any (fun n =>
-    !(match stepOf n with | .panicNil => true | .empty => true | _ => false) &&
-    !((n.ref.getD "").startsWith "#" && n.cx.doc != n.cx.path) &&
-    !(match stepOf n with
-      | .node cx _ src _ false _ => (cx.doc.map storeKey).getD "" != src && !((n.ref.getD "").startsWith "#")
-      | _ => false))
+    !(match stepOf n with | .empty => true | _ => false) &&
+    !((n.ref.getD "").startsWith "#" && n.cx.doc != n.cx.path))
   let excl :=
-    (if textNotGlobal then ["TextNotGlobal"] else []) ++ (if kindClash then ["KindClash"] else []) ++
-    (if unwalked then ["UnwalkedPosition"] else []) ++ (if degenerate then ["DegenerateTarget"] else []) ++
-    (if pathItemChain then ["PathItemChain"] else []) ++ (if fallback then ["FallbackReadsReferrer"] else []) ++
-    (if nilField then ["NilFieldTarget"] else []) ++ (if internalInElem then ["InternalRefInElementFile"] else []) ++
+    (if textNotGlobal then ["TextNotGlobal"] else []) ++ (if kindClash then ["KindClashUnresolved"] else []) ++
+    (if degenerate then ["DegenerateTarget"] else []) ++
+    (if internalInElem then ["InternalRefInElementFile"] else []) ++
     (if foreign then ["ForeignContext"] else []) ++
     (if otherDisagree then ["StepDisagree"] else [])
   -- branches
@@ -239,6 +217,8 @@ def handle (j : Json) : Json :=
     (if refNodes.any targetIsRef then ["chain"] else []) ++
     (if nback > 0 then ["backtrack"] else []) ++
     (if nnil > 0 then ["unvisit.nil"] else []) ++
+    (if nskip > 0 then ["callback.otherKind"] else []) ++
+    (if nempty > 0 then ["empty.swallowed"] else []) ++
     (if b.cxs.length > 1 then ["ctx.many"] else []) ++
     (if b.cxs.any (fun c => c.doc != c.path) then ["ctx.element"] else []) ++
     (if refNodes.any isUntyped then ["untyped.codec"] else []) ++
